@@ -273,7 +273,10 @@ def _parse(res):
             for l2 in lines[i + 1:i + 20000]:
                 if l2.startswith(('Finished in', 'The number of states', 'Progress')) or _STAT.search(l2):
                     break
-                if l2.startswith(('Invariant ', 'Action property ')) and 'is violated' in l2:
+                if l2.startswith(('Invariant ', 'Action property ', 'Error: Invariant ',
+                                  'Error: Action property ')) and 'is violated' in l2:
+                    break
+                if l2.startswith(('Finished computing initial states', 'Computed ')):
                     break
                 if l2.startswith('"{'):
                     continue
